@@ -6,6 +6,8 @@ From V.Ts Require Import Model Proofs Answers Extra Exact Multi MultiProofs Repo
 From V.Mgr Require Model.
 From V.C06 Require Compose08.
 From V.Link Require C06_C08.
+From V.C07 Require Model Compose.
+From V.Link Require C07_C06.
 Import ListNotations.
 Open Scope N_scope.
 
@@ -570,3 +572,38 @@ Proof.
            (V.Link.C06_C08.multi_feasible_under_manager L xs tr cap cfg n0 HX HP HR) LT).
 Qed.
 Print Assumptions C08_multi_stream_wellformed_under_manager.
+
+(* ---- on a node (coq/Link/C07_C06.v): the TransportService of protocol i of a node of connection
+   tasks (C07's node model: manager + accept futures + connection tasks + protocols). Its connection
+   events are what the node tells protocol i (`node_xevs`); the hypothesis `xtrace` of the corollaries
+   above is a theorem there (C06_C08_xtrace_on_node). Left: env_ok for what the transports deliver to the
+   manager, globally fresh connection ids, protocol i stays alive, and `feasible_rest`. ---- *)
+Theorem C08_stream_wellformed_on_node :
+  forall (i n : nat) (L : V.Mgr.Model.limits) (es : list V.C07.Model.nev) tr ka T n0 q,
+  (i < n)%nat ->
+  V.C07.Compose.node_env_trace L (V.C07.Model.node_init n) [] [] es ->
+  V.Link.C07_C06.fresh_ids [] es -> V.Link.C07_C06.no_die i es ->
+  filter V.C06.Compose08.is_conn (map snd tr) =
+    V.C06.Compose08.xproj (V.Link.C07_C06.node_xevs i L (V.C07.Model.node_init n) es) ->
+  V.C06.Compose08.feasible_rest env0 (init ka T n0) tr = true ->
+  exists b, wf_run false (pevs q (concat (run (init ka T n0) tr))) = Some b.
+Proof.
+  intros i n L es tr ka T n0 q H He Hf Hd HP HR.
+  exact (C08_stream_wellformed ka T n0 tr q (V.Link.C07_C06.node_feasible i n L es tr ka T n0 H He Hf Hd HP HR)).
+Qed.
+Print Assumptions C08_stream_wellformed_on_node.
+
+Theorem C08_alternation_on_node :
+  forall (i n : nat) (L : V.Mgr.Model.limits) (es : list V.C07.Model.nev) tr ka T n0 q,
+  (i < n)%nat ->
+  V.C07.Compose.node_env_trace L (V.C07.Model.node_init n) [] [] es ->
+  V.Link.C07_C06.fresh_ids [] es -> V.Link.C07_C06.no_die i es ->
+  filter V.C06.Compose08.is_conn (map snd tr) =
+    V.C06.Compose08.xproj (V.Link.C07_C06.node_xevs i L (V.C07.Model.node_init n) es) ->
+  V.C06.Compose08.feasible_rest env0 (init ka T n0) tr = true ->
+  alternates false (conn_evs q (concat (run (init ka T n0) tr))).
+Proof.
+  intros i n L es tr ka T n0 q H He Hf Hd HP HR.
+  exact (C08_alternation ka T n0 tr q (V.Link.C07_C06.node_feasible i n L es tr ka T n0 H He Hf Hd HP HR)).
+Qed.
+Print Assumptions C08_alternation_on_node.
